@@ -355,6 +355,15 @@ NonOverlapConstraints::getCurrSubConstraintAlternatives(vpsc::Variables vs[])
 
     // Take the first in the list.
     ShapePairInfo& info = pairInfoList.front();
+    if (info.processed)
+    {
+        // Processed pairs are kept at the back of the list, so every pair
+        // has been dealt with.  A pair for which no alternative could be
+        // satisfied still overlaps; offering its alternatives again
+        // would never end.
+        _currSubConstraintIndex = pairInfoList.size();
+        return alternatives;
+    }
     if (pairInfoListSorted == false)
     {
         // Only need to compute if not sorted.
